@@ -926,6 +926,14 @@ fn plant_templates(rng: &mut Rng, prog: &mut Prog, goals: &mut Vec<Goal>) {
             }
             heads.push(h);
         }
+        if rng.coin(35) && nk >= 3 {
+            // canonical shape: two specific impls that agree in one argument, plus a fully generic one — the aggregate of
+            // the first two (`P2<Ka, _>`) must be given up when the generic answer arrives, whatever the arrival order
+            let (a, b, c) = (rng.below(nk), rng.below(nk), rng.below(nk));
+            let c = if c == b { (b + 1) % nk } else { c };
+            heads = if rng.coin(50) { vec![(k(a), k(b)), (k(a), k(c)), (var("T0"), var("T1"))] } else { vec![(k(b), k(a)), (k(c), k(a)), (var("T0"), var("T1"))] };
+            rng.shuffle(&mut heads);
+        }
         // "delayed" worlds: every impl has a where-clause, so that no strand is a plain fact and answers arrive in
         // declaration order
         let delayed = rng.coin(50);
